@@ -36,6 +36,9 @@ def run(chk):
         chk.count('function-instances')
         return chk.I.run(fn_, args, st if st is not None else State(), sub)
     chk.guard('iter', 'PageTable::zero / iter_mut', lambda: iter_rules(chk, chk.I, r1))
+    # the pointers OffsetPageTable dereferences: frame_to_pointer of its PhysOffset mapping is offset + frame address
+    from .c01 import phys_offset_rule
+    chk.guard('who-may-dereference', 'PhysOffset::frame_to_pointer', lambda: phys_offset_rule(chk, chk.I, 'who-may-dereference'))
     runs = {}
     for impl in IMPLS:
         for size in SIZES3:
